@@ -51,6 +51,9 @@ class Contract:
         self.assume_entry = _lst(kw.pop("assume_entry", []))   # extra entry assumptions (listed in evidence)
         self.self_cls = kw.pop("self_cls", None)
         self.step = kw.pop("step", None)             # async generator: per-step contract
+        self.step_ensures = _lst(kw.pop("step_ensures", []))     # at every `yield v` (result = v, old() = function entry,
+                                                                 # at_step_start(e) = value when the step began)
+        self.step_suspends = kw.pop("step_suspends", None)        # (min, max) suspensions per step
         self.check_frame = kw.pop("check_frame", True)
         if kw:
             raise SpecError("unknown contract keys for %s: %s" % (fqn, sorted(kw)))
